@@ -2,6 +2,13 @@
 macro_rules! trace { ($($tt:tt)*) => {{}} }
 macro_rules! debug { ($($tt:tt)*) => {{}} }
 macro_rules! error { ($($tt:tt)*) => {{}} }
+// R5: `format!` yields an arbitrary String; its argument expressions are still evaluated (so a
+// slice or subtraction inside an error message is still checked), only the text is dropped.
+#[verifier::external_body]
+pub fn vx_string_any() -> (r: String) { unimplemented!() }
+macro_rules! format {
+    ($fmt:literal $(, $arg:expr)* $(,)?) => {{ $( let _ = &$arg; )* vx_string_any() }};
+}
 macro_rules! e_fmt { ($($arg:tt)+) => { Error::Msg(format!($($arg)+)) }; }
 
 pub enum Error { Again, DaemonShutdown, Msg(String), ParseIpAddr(String) }
